@@ -292,9 +292,19 @@ struct xcm_socket *xcm_accept_a(struct xcm_socket *server_s,
     bool is_blocking = server_s->is_blocking;
     struct xcm_socket *conn_s;
 
+    /* A blocking mode given for the new connection takes effect from
+       the start. Switching modes on the still-unaccepted socket
+       would attempt to finish work that does not yet exist. */
+    bool conn_is_blocking = server_s->is_blocking;
+    const bool *attr_blocking =
+	attrs != NULL ? xcm_attr_map_get_bool(attrs, XCM_ATTR_XCM_BLOCKING) :
+	NULL;
+    if (attr_blocking != NULL)
+	conn_is_blocking = *attr_blocking;
+
 restart:
     conn_s = socket_create(server_s->proto, xcm_socket_type_conn,
-			   server_s->is_blocking);
+			   conn_is_blocking);
     if (conn_s == NULL)
 	goto err;
 
